@@ -74,8 +74,8 @@ theorem fltE_written (f : Field) (dec : Nat) (fmt c : Char) (hk : f.kind = .flt 
 /-- the admitted field kinds -/
 def FldFE (f : Field) : Prop := f.kind = .int ∨ f.kind = .lit ∨ FltF f ∨ FltE f
 
-/-- what the property's "parsed values are representable" means for floats: finite, below
-`2^1013`, fitting; in an E-notation field moreover zero or normal (`2^-1022` and more) -/
+/-- what the property's "parsed values are representable" means for floats: finite,
+fitting; in an E-notation field moreover zero or normal (`2^-1022` and more) -/
 def FitFE (f : Field) (l : List Char) : Prop :=
   ∀ y, f.readText l = .dbl y →
     ∃ neg m e, y = .fin neg m e ∧ Proofs.FloatLoop.wfs m e ∧ Spec.C02.fits f (.dbl y) = true ∧ (FltE f → wfn m e ∨ m = 0)
@@ -159,7 +159,7 @@ theorem canon_some_FE (f : Field) (l : List Char) (v : Val) (hk : FldFE f)
 For every unambiguous list of positional register types whose fields are integers, literals,
 F-notation floats (up to 323 decimals) or E-notation floats (up to twelve decimals), and every
 text whose parsed numbers are representable in their fields (integers fit when printed;
-floats are finite, below `2^1013` and fit when printed; in E-notation fields zero or normal,
+floats are finite and fit when printed; in E-notation fields zero or normal,
 `2^-1022` and more): read-then-write is a projection and `Spec.C06.holds`. -/
 theorem main_regs_FE (regs : List RegDef) (x : List Char) (hamb : unambiguous regs = true)
     (hdel : ∀ r ∈ regs, r.delimiter = .none)
